@@ -55,6 +55,7 @@ var impWants = []impWant{
 	{dir: "formats/fasta", pkg: "fastard", funcs: []string{"reader.read", "reader.iter"}, errZ: true},
 	{dir: "formats/fastq", pkg: "fastq", funcs: []string{"Fastq.Write"}, join: true},
 	{dir: "formats/fastq", pkg: "fastqrd", funcs: []string{"reader.read", "reader.iter"}, errZ: true, join: true},
+	{dir: "formats/sam", pkg: "sam", funcs: []string{"tagToText", "tagsToText", "SAM.Write"}, join: true, floatAs: "F"},
 	{dir: "formats/bed", pkg: "bed", funcs: []string{"BED.Write", "parseLine", "reader.read"}, join: true, errZ: true},
 	{dir: "formats/newick", pkg: "newick", funcs: []string{"quoted", "nameFromText", "nameToText", "Node.traverse", "Node.newick"}, floatAs: "F"},
 	{dir: "formats/newick", pkg: "newickrd", funcs: []string{"reader.nextToken"}, errZ: true, floatAs: "F"},
@@ -172,7 +173,15 @@ func isBuilder(ty types.Type) bool {
 	return ty.String() == "strings.Builder" || ty.String() == "bytes.Buffer"
 }
 
+func isAny(ty types.Type) bool {
+	i, ok := ty.Underlying().(*types.Interface)
+	return ok && i.NumMethods() == 0
+}
+
 func (t *impTr) ty(ty types.Type) string {
+	if isAny(ty) && !isError(ty) {
+		return "go_any" // byte | int | float64 | string | []byte (GoSem.v)
+	}
 	if isBuilder(ty) {
 		return "(list N)" // the bytes written so far
 	}
@@ -344,6 +353,31 @@ func (t *impTr) record(n *types.Named) {
 		}
 		fmt.Fprintf(t.out, "Definition %s_with_%s (r : %s) (v : %s) : %s := %s.\n", rn, s.Field(i).Name(), rn, ftys[i], rn, strings.Join(parts, " "))
 	}
+}
+
+// anyOf wraps the value x of static type ty into go_any.
+func (t *impTr) anyOf(x string, ty types.Type, n ast.Node) string {
+	switch u := ty.Underlying().(type) {
+	case *types.Basic:
+		switch {
+		case u.Kind() == types.Uint8:
+			return "(AnyByte " + x + ")"
+		case u.Info()&types.IsFloat != 0:
+			return "(AnyFloat " + x + ")"
+		case u.Info()&types.IsInteger != 0:
+			return "(AnyInt " + x + ")"
+		case u.Info()&types.IsString != 0:
+			return "(AnyString " + x + ")"
+		}
+	case *types.Slice:
+		if isByte(u.Elem()) {
+			return "(AnyBytes " + x + ")"
+		}
+	case *types.Interface:
+		return x
+	}
+	t.fail(n, "a value of type %s stored as any", ty)
+	return ""
 }
 
 // ---- expressions -----------------------------------------------------------------------
@@ -877,6 +911,16 @@ func (t *impTr) call(e *ast.CallExpr, pre *[]opener) string {
 				t.fail(e, "strings.Split with a separator that is not a one-byte constant")
 			}
 			return fmt.Sprintf("(split_on %d%%N %s)", constant.StringVal(sep.Value)[0], t.ex(e.Args[0], pre))
+		case "strconv.Itoa":
+			return "(itoa " + t.ex(e.Args[0], pre) + ")"
+		case "strconv.FormatFloat":
+			if t.floatAs == "" {
+				t.fail(e, "FormatFloat in a package whose floats are integers")
+			}
+			t.oracle = true
+			return "(fmtF o " + t.ex(e.Args[0], pre) + ")"
+		case "encoding/hex.EncodeToString":
+			return "(go_hex_encode " + t.ex(e.Args[0], pre) + ")"
 		case "strings.TrimSuffix":
 			return fmt.Sprintf("(go_trim_suffix %s %s)", t.ex(e.Args[0], pre), t.ex(e.Args[1], pre))
 		case "strings.ReplaceAll":
@@ -1069,7 +1113,7 @@ func (t *impTr) assigned(n ast.Node) ([]types.Object, int) {
 				}
 				if o.Pkg() != nil {
 					switch o.Pkg().Path() + "." + o.Name() {
-					case "sort.Slice", "sort.Ints":
+					case "sort.Slice", "sort.Ints", "sort.Strings":
 						add(s.Args[0])
 					}
 				}
@@ -1341,6 +1385,10 @@ func (t *impTr) block(list []ast.Stmt, k string, lc *loopCtx) string {
 				x := t.ex(call.Args[0], &pre)
 				t.store(call.Args[0], fmt.Sprintf("(go_sort Z.ltb %s)", x), &pre)
 				return wrapOpeners(pre, rest())
+			case "sort.Strings":
+				x := t.ex(call.Args[0], &pre)
+				t.store(call.Args[0], fmt.Sprintf("(go_sort go_string_lt %s)", x), &pre)
+				return wrapOpeners(pre, rest())
 			case "sort.Slice":
 				// sort.Slice(x, func(i, j int) bool { return less(x[i], x[j]) })
 				x := t.ex(call.Args[0], &pre)
@@ -1486,6 +1534,50 @@ func (t *impTr) block(list []ast.Stmt, k string, lc *loopCtx) string {
 			out = fmt.Sprintf("(if %s then %s else %s)", arms[i].cond, arms[i].body, out)
 		}
 		return wrapOpeners(pre, out)
+	case *ast.TypeSwitchStmt:
+		// switch v := x.(type) { case byte: ... }  on a go_any
+		as, ok := s.Assign.(*ast.AssignStmt)
+		if !ok || len(as.Rhs) != 1 {
+			t.fail(s, "unsupported type switch")
+		}
+		ta := as.Rhs[0].(*ast.TypeAssertExpr)
+		x := t.ex(ta.X, &pre)
+		arms := map[string]string{}
+		def := "Panics"
+		for _, cc := range s.Body.List {
+			cl := cc.(*ast.CaseClause)
+			if hasBranch(cl) {
+				t.fail(cl, "break in a type switch")
+			}
+			impl := t.info.Implicits[cl]
+			if cl.List == nil {
+				nm := "_"
+				if impl != nil {
+					nm = t.nameOf(impl)
+				}
+				def = "let " + nm + " := " + x + " in " + t.block(append(append([]ast.Stmt{}, cl.Body...), list[1:]...), k, lc)
+				continue
+			}
+			if len(cl.List) != 1 {
+				t.fail(cl, "a case with several types")
+			}
+			cty := t.info.Types[cl.List[0]].Type
+			ctor := strings.Trim(strings.Fields(t.anyOf("v", cty, cl))[0], "(")
+			nm := "_"
+			if impl != nil {
+				nm = t.nameOf(impl)
+			}
+			arms[ctor] = "| " + ctor + " " + nm + " => " + t.block(append(append([]ast.Stmt{}, cl.Body...), list[1:]...), k, lc)
+		}
+		out := "(match " + x + " with "
+		for _, c := range []string{"AnyByte", "AnyInt", "AnyFloat", "AnyString", "AnyBytes"} {
+			if a, ok := arms[c]; ok {
+				out += a + " "
+			} else {
+				out += "| " + c + " _ => " + def + " "
+			}
+		}
+		return wrapOpeners(pre, out+"end)")
 	case *ast.RangeStmt:
 		return t.rangeStmt(s, rest)
 	case *ast.ForStmt:
@@ -1716,10 +1808,17 @@ func (t *impTr) rangeStmt(s *ast.RangeStmt, rest func() string) string {
 			loop = fmt.Sprintf("go_range %s (fun %s %s %s => %s) %s", x, name(s.Key), name(s.Value), pat(state), body(), state)
 		}
 	case *types.Map:
-		if s.Value != nil || !isSetMap(xt) || t.mentions(s.X, objs) {
+		if t.mentions(s.X, objs) {
+			t.fail(s, "the ranged map is assigned in its loop")
+		}
+		if isSetMap(xt) && s.Value == nil {
+			loop = fmt.Sprintf("go_range %s (fun _ %s %s => %s) %s", x, name(s.Key), pat(state), body(), state)
+		} else if !isSetMap(xt) {
+			// an association list: (key, value) pairs in list order (one of Go's possible orders)
+			loop = fmt.Sprintf("go_range %s (fun _ '(%s, %s) %s => %s) %s", x, name(s.Key), name(s.Value), pat(state), body(), state)
+		} else {
 			t.fail(s, "unsupported range over a map")
 		}
-		loop = fmt.Sprintf("go_range %s (fun _ %s %s => %s) %s", x, name(s.Key), pat(state), body(), state)
 	default:
 		t.fail(s, "unsupported range over %s", xt)
 	}
@@ -1891,6 +1990,9 @@ func (t *impTr) function(fd *ast.FuncDecl, coqName string) *impFn {
 				recursive = true
 			}
 			if o != nil && o.Pkg() != nil && o.Pkg().Path() == "fmt" && o.Name() == "Fprint" && t.floatAs != "" {
+				t.oracle = true
+			}
+			if o != nil && o.Pkg() != nil && o.Pkg().Path() == "strconv" && (o.Name() == "FormatFloat" || o.Name() == "ParseFloat") && t.floatAs != "" {
 				t.oracle = true
 			}
 			if fn, ok := t.fns[o]; ok && fn.oracle {
@@ -2117,7 +2219,8 @@ func genImp(repo, out string) {
 			}
 		}
 		info := &types.Info{Types: map[ast.Expr]types.TypeAndValue{}, Defs: map[*ast.Ident]types.Object{},
-			Uses: map[*ast.Ident]types.Object{}, Selections: map[*ast.SelectorExpr]*types.Selection{}}
+			Uses: map[*ast.Ident]types.Object{}, Selections: map[*ast.SelectorExpr]*types.Selection{},
+			Implicits: map[ast.Node]types.Object{}}
 		conf := types.Config{Importer: importer.ForCompiler(fset, "source", nil)}
 		if _, err := conf.Check(want.pkg, fset, files, info); err != nil {
 			panic(fmt.Sprintf("type-checking %s: %v", want.dir, err))
